@@ -294,8 +294,9 @@ def touchAll (k : KV) (now : Int) : KV :=
   let f := fun (t : Table) => { t with slots := t.slots.map (fun s => { s with r := { s.r with la := now } }) }
   { k with head := k.head.map f, old := k.old.map f }
 
-/-- isCompactionOK: garbage ≥ 0.40 · allocated (maxGarbageRatio; generated fact `Facts.maxGarbageRatio`). -/
-def needsCompaction (t : Table) : Bool := t.garbage * 5 ≥ t.alloc * 2
+/-- isCompactionOK: garbage ≥ 0.40 · allocated (maxGarbageRatio; generated fact `Facts.maxGarbageRatio`), or no live
+    entry left while the table carries garbage (a table retired nearly empty never reaches the ratio). -/
+def needsCompaction (t : Table) : Bool := (t.inuse == 0 && decide (t.garbage > 0)) || decide (t.garbage * 5 ≥ t.alloc * 2)
 
 def isExpiredAt (k : KV) (now : Int) (t : Table) : Bool :=
   decide (Int.tdiv now 1000000 ≥ Int.tdiv (k.maxIdle + t.recycledAt) 1000000)
